@@ -34,6 +34,8 @@ def run(ctx):
     lib_sweep.sweep_inverse(ctx, P, tus=["trees"])
     lib_stats.lazy_flush(ctx, P)
     lib_stats.carry_sign(ctx, P)
+    from . import lib_kind2
+    lib_kind2.guard_nan(ctx, P)
     funcs = set(lib_stats.VALIDATORS)
     seen = lib_guards.analyse(ctx, P, funcs=funcs)
     lib_guards.presence(ctx, seen, funcs=funcs, P=P)
